@@ -731,8 +731,14 @@ func checkMedian(p *load.Program, r *kit.Report) {
 	// callers all pass 3 (checked in Target); guard count == 3
 	is3 := kit.FindGuards(f, func(c ssa.Value) (bool, bool) {
 		b, ok := c.(*ssa.BinOp)
-		if !ok || (b.Op != token.EQL && b.Op != token.NEQ) || b.X != ssa.Value(count) {
+		if !ok || (b.Op != token.EQL && b.Op != token.NEQ) {
 			return false, false
+		}
+		// count itself, or the length of the list made with that many entries
+		if b.X != ssa.Value(count) {
+			if x := lin.Of(b.X); !x.OK || !x.Equal(lin.Of(count)) {
+				return false, false
+			}
 		}
 		if kc, ok := kit.ConstInt(b.Y); !ok || kc != 3 {
 			return false, false
